@@ -25,6 +25,14 @@
     The handler is modelled in its two versions, before and after the repair
     9775a95 (flags [sg] of [ignore_fields] and [lenfix] of
     [maps_equal_by_source_keys]); [ignore_sg] / [pg_equal] select the current one.
+    Two later repairs have a switch each, in the same style:
+    - [af] (8227120, CalcPodGroupAnnotations): the pod-group-name annotation is
+      deleted from the PodGroup annotations after the top owner's annotations
+      were copied ([calc_annots_with]; [annot_fix] is the current value);
+    - [pf] (3f1c7d2, assignPodToGroupAndSubGroup): no patch when the pod already
+      carries the group's name and no sub-group is expected, whatever sub-group
+      label it has ([needs_patch_with]; [patch_fix] is the current value).
+    Every definition without the suffix [_with] is the code as it is.
 
     Left out / oracles: all other plugins (kubeflow, ray, spark, jobset, grove,
     lws, knative, cronjob, runaijob, aml, spotrequest, notebook) give
@@ -468,11 +476,20 @@ Definition calc_queue (cfg : config) (top : obj) (p : pod) : string :=
     end
   end.
 
-(** CalcPodGroupAnnotations *)
-Definition calc_annots (top : obj) (p : pod) : smap :=
+(** CalcPodGroupAnnotations. [af] = the repair 8227120: [delete(pgAnnotations, "pod-group-name")] after the
+    top owner's annotations were copied *)
+Definition calc_annots_with (af : bool) (top : obj) (p : pod) : smap :=
   let a0 := match lookup user_key (p_annots p) with Some v => [(user_key, v)] | None => [] end in
   let a1 := aset tom_key (o_tom top) a0 in
-  copy_into (o_annots top) a1.
+  let a2 := copy_into (o_annots top) a1 in
+  if af then adel pg_annotation_key a2 else a2.
+
+(** before 8227120 *)
+Definition annot_fix_v0 := false.
+(** since 8227120 — the code as it is *)
+Definition annot_fix_v1 := true.
+Definition annot_fix := annot_fix_v1.
+Definition calc_annots := calc_annots_with annot_fix.
 
 (** CalcPodGroupLabels *)
 Definition calc_labels (top : obj) (p : pod) : smap :=
@@ -492,11 +509,11 @@ Definition annot_or_empty (k : string) (o : obj) : string :=
 
 (** DefaultGrouper.GetPodGroupMetadata. Note: the pod's *user* annotation is read from the pod object the
     reconciler holds, i.e. its current annotations; the key differs from the pod-group key, so [p_annots] is the same. *)
-Definition default_md (cfg : config) (top : obj) (p : pod) (owners : list obj) : metadata :=
+Definition default_md_with (af : bool) (cfg : config) (top : obj) (p : pod) (owners : list obj) : metadata :=
   let owners' := match owners with [] => [top] | _ => owners end in
   {| m_name := pg_name (o_name top) (o_uid top);
      m_labels := Some (calc_labels top p);
-     m_annots := Some (calc_annots top p);
+     m_annots := Some (calc_annots_with af top p);
      m_prio := calc_prio cfg owners' p "train";
      m_preempt := calc_preempt cfg owners' p;
      m_queue := calc_queue cfg top p;
@@ -514,8 +531,8 @@ Definition with_name (m : metadata) (n : string) : metadata :=
      m_subgroups := m_subgroups m; m_topo := m_topo m |}.
 
 (** DeploymentGrouper.GetPodGroupMetadata *)
-Definition deployment_md (cfg : config) (top : obj) (p : pod) : metadata :=
-  let m := default_md cfg top p [] in
+Definition deployment_md_with (af : bool) (cfg : config) (top : obj) (p : pod) : metadata :=
+  let m := default_md_with af cfg top p [] in
   {| m_name := pg_name (p_name p) (p_uid p); m_labels := m_labels m; m_annots := m_annots m;
      m_prio := calc_prio cfg [top] p "inference";
      m_preempt := m_preempt m; m_queue := m_queue m; m_min := m_min m;
@@ -523,8 +540,8 @@ Definition deployment_md (cfg : config) (top : obj) (p : pod) : metadata :=
      m_subgroups := m_subgroups m; m_topo := m_topo m |}.
 
 (** K8sJobGrouper.GetPodGroupMetadata (no legacy search) *)
-Definition job_md (cfg : config) (top : obj) (p : pod) : metadata :=
-  with_name (default_md cfg top p []) (pg_name (p_name p) (o_uid top)).
+Definition job_md_with (af : bool) (cfg : config) (top : obj) (p : pod) : metadata :=
+  with_name (default_md_with af cfg top p []) (pg_name (p_name p) (o_uid top)).
 
 Definition is_spark_pod (p : pod) : bool :=
   match lookup "spark-app-name" (p_labels p), lookup "spark-app-selector" (p_labels p) with
@@ -534,24 +551,25 @@ Definition is_spark_pod (p : pod) : bool :=
 
 Inductive md_res := MdOk (m : metadata) | MdErr | MdUnmodelled | MdOutOfFuel | MdPanic.
 
-Definition leaf_md (cfg : config) (pl : plugin) (g : obj) (p : pod) (owners : list obj) : md_res :=
+Definition leaf_md_with (af : bool) (cfg : config) (pl : plugin) (g : obj) (p : pod) (owners : list obj) : md_res :=
   match pl with
-  | PDefault => MdOk (default_md cfg g p owners)
-  | PDeployment => MdOk (deployment_md cfg g p)
-  | PJob => MdOk (job_md cfg g p)
-  | PPodJob => if is_spark_pod p then MdUnmodelled else MdOk (default_md cfg g p [])
+  | PDefault => MdOk (default_md_with af cfg g p owners)
+  | PDeployment => MdOk (deployment_md_with af cfg g p)
+  | PJob => MdOk (job_md_with af cfg g p)
+  | PPodJob => if is_spark_pod p then MdUnmodelled else MdOk (default_md_with af cfg g p [])
   | PSkip => MdErr   (* unreachable: [resolve] never returns PSkip *)
   | PUnmodelled => MdUnmodelled
   end.
 
 (** GetPodOwners + GetPGMetadata *)
-Definition reconcile_md (cfg : config) (cl : list obj) (p : pod) (a : option string) : md_res :=
+Definition reconcile_md_with (af : bool) (cfg : config) (cl : list obj) (p : pod) (a : option string) : md_res :=
   match grouping cfg cl p a with
-  | GOk pl g owners _ => leaf_md cfg pl g p owners
+  | GOk pl g owners _ => leaf_md_with af cfg pl g p owners
   | GErr => MdErr
   | GOutOfFuel => MdOutOfFuel
   | GPanic => MdPanic
   end.
+Definition reconcile_md := reconcile_md_with annot_fix.
 
 (** addNodePoolLabel *)
 Definition add_node_pool_label (cfg : config) (m : metadata) (p : pod) : metadata :=
@@ -576,12 +594,13 @@ Definition is_orphan (p : pod) (a : option string) : bool :=
   end.
 
 (** the metadata a reconcile of [p] applies, when it gets that far *)
-Definition full_md (cfg : config) (cl : list obj) (p : pod) (a : option string) : option metadata :=
+Definition full_md_with (af : bool) (cfg : config) (cl : list obj) (p : pod) (a : option string) : option metadata :=
   if is_orphan p a then None
-  else match reconcile_md cfg cl p a with
+  else match reconcile_md_with af cfg cl p a with
        | MdOk m => Some (add_node_pool_label cfg m p)
        | _ => None
        end.
+Definition full_md := full_md_with annot_fix.
 
 (** * PodGroup objects, the store and the API round trip *)
 Record pg := {
@@ -744,20 +763,32 @@ Definition apply_to_cluster_with (sg : bool) (eq : pg -> pg -> bool) (cfg : conf
 (** Metadata.FindSubGroupForPod: sub-groups carry no pod references in the modelled plugins *)
 Definition expected_subgroup (m : metadata) (p : pod) : string := "".
 
-(** assignPodToGroupAndSubGroup: does it patch? *)
-Definition needs_patch (m : metadata) (p : pod) (a : option string) : bool :=
+(** assignPodToGroupAndSubGroup: does it patch? [pf] = the repair 3f1c7d2:
+    [currentPG == metadata.Name && (expectedSubGroup == "" || currentSubGroup == expectedSubGroup)] instead of
+    [currentPG == metadata.Name && currentSubGroup == expectedSubGroup]. The patch sets the annotation, and the
+    sub-group label only when one is expected: a label the pod carries is never removed. *)
+Definition needs_patch_with (pf : bool) (m : metadata) (p : pod) (a : option string) : bool :=
   let cur_pg := match lookup pg_annotation_key (cur_annots p a) with Some v => v | None => "" end in
   let cur_sg := match lookup subgroup_label_key (p_labels p) with Some v => v | None => "" end in
-  negb (String.eqb cur_pg (m_name m) && String.eqb cur_sg (expected_subgroup m p)).
+  let exp_sg := expected_subgroup m p in
+  negb (String.eqb cur_pg (m_name m)
+        && ((pf && String.eqb exp_sg "") || String.eqb cur_sg exp_sg)).
+
+(** before 3f1c7d2 *)
+Definition patch_fix_v0 := false.
+(** since 3f1c7d2 — the code as it is *)
+Definition patch_fix_v1 := true.
+Definition patch_fix := patch_fix_v1.
+Definition needs_patch := needs_patch_with patch_fix.
 
 (** PodReconciler.Reconcile; second component = mutating API calls *)
-Definition reconcile_with (sg : bool) (eq : pg -> pg -> bool) (cfg : config) (cl : list obj) (p : pod) (s : state) : state * Z :=
+Definition reconcile_with (af pf sg : bool) (eq : pg -> pg -> bool) (cfg : config) (cl : list obj) (p : pod) (s : state) : state * Z :=
   let a := get_asg (p_name p) s in
-  match full_md cfg cl p a with
+  match full_md_with af cfg cl p a with
   | None => (s, 0%Z)
   | Some m =>
     let r := apply_to_cluster_with sg eq cfg m s in
-    let w := if needs_patch m p a then 1%Z else 0%Z in
+    let w := if needs_patch_with pf m p a then 1%Z else 0%Z in
     ({| st_pgs := st_pgs (fst r); st_asg := aset (p_name p) (m_name m) (st_asg (fst r)) |}, (snd r + w)%Z)
   end.
 
@@ -788,9 +819,9 @@ Definition foreign_apply (cfg : config) (f : foreign_upd) (g : pg) : pg :=
 
 Inductive event := EvReconcile (p : pod) | EvForeign (name : string) (f : foreign_upd).
 
-Definition step_with (sg : bool) (eq : pg -> pg -> bool) (cfg : config) (cl : list obj) (e : event) (s : state) : state * Z :=
+Definition step_with (af pf sg : bool) (eq : pg -> pg -> bool) (cfg : config) (cl : list obj) (e : event) (s : state) : state * Z :=
   match e with
-  | EvReconcile p => reconcile_with sg eq cfg cl p s
+  | EvReconcile p => reconcile_with af pf sg eq cfg cl p s
   | EvForeign n f =>
     match get_pg n s with
     | None => (s, 0%Z)
@@ -798,14 +829,14 @@ Definition step_with (sg : bool) (eq : pg -> pg -> bool) (cfg : config) (cl : li
     end
   end.
 
-Definition run_with (sg : bool) (eq : pg -> pg -> bool) (cfg : config) (cl : list obj) (es : list event) (s : state) : state :=
-  fold_left (fun s e => fst (step_with sg eq cfg cl e s)) es s.
+Definition run_with (af pf sg : bool) (eq : pg -> pg -> bool) (cfg : config) (cl : list obj) (es : list event) (s : state) : state :=
+  fold_left (fun s e => fst (step_with af pf sg eq cfg cl e s)) es s.
 
 (** the code as it is *)
 Definition apply_to_cluster := apply_to_cluster_with ignore_sg pg_equal.
-Definition reconcile := reconcile_with ignore_sg pg_equal.
-Definition step := step_with ignore_sg pg_equal.
-Definition run := run_with ignore_sg pg_equal.
+Definition reconcile := reconcile_with annot_fix patch_fix ignore_sg pg_equal.
+Definition step := step_with annot_fix patch_fix ignore_sg pg_equal.
+Definition run := run_with annot_fix patch_fix ignore_sg pg_equal.
 
 (** the fields other actors own, as read from a stored PodGroup *)
 Record fview := { fv_queue : string; fv_mark : option bool; fv_backoff : option Z; fv_nodepool : option string }.
